@@ -2,11 +2,12 @@
 from harness.props import sysrun
 from harness.sched import monitors as M
 
-PROP_FILE = 'C03'
+PROP_FILE = ['C03', 'C02Legacy', 'C19']
 
 
 def mons():
-    return [M.m_terminates, M.m_success_means_all_ok, lambda r: M.m_attempt_bound(r, 5), M.m_cancel, M.m_stream_order]
+    return [M.m_terminates, M.m_success_means_all_ok, lambda r: M.m_attempt_bound(r, 5), M.m_no_retry_after_fatal,
+            M.m_cancel, M.m_stream_order]
 
 
 def specs(ctx):
@@ -34,5 +35,15 @@ def run(ctx):
                           'position of every transfer type/mode, under random/PCT schedules; distinct = distinct event trace')
 
 
+    # the other front-ends the statement covers: the legacy downloader (faults at every request /
+    # stream position: success only with the complete object) and the process pool (every single
+    # job / allocate / rename / head fault: done without exception only with every range in place)
+    from harness.props import legacy, c19
+    if len(ctx.violations) < 5:
+        legacy.check_c02(ctx)
+    if len(ctx.violations) < 5:
+        c19.sub_check(ctx, 'faults')
+
+
 def replay(ctx, data):
-    return sysrun.replay_spec(ctx, data, mons())
+    return sysrun.replay_any(ctx, data, mons())
